@@ -115,6 +115,13 @@ def hostile_lines():
     for n in (255, 256, 257, 70000):
         add("receipt-%d" % n, with_auth(SL, receipt=reqs.mk_receipt(rng2, n).hex()))
         add("proof-node-%d" % n, with_auth(SL, receipt_merkle_proof=["ab" * n]))
+    for d in (300, 990, 5000):
+        x = b"\x80"
+        for _ in range(d):
+            n = len(x)
+            ln = n.to_bytes((n.bit_length() + 7) // 8, "big")
+            x = (bytes([0xc0 + n]) if n < 56 else bytes([0xf7 + len(ln)]) + ln) + x
+        add("receipt-deep-%d" % d, with_auth(SL, receipt=x.hex()))
     add("receipt-not-rlp", with_auth(SL, receipt="01020304"))
     add("receipt-rlp-string", with_auth(SL, receipt=R.encode(b"x" * 100).hex()))
     for n in (255, 256, 257, 1000):
@@ -164,6 +171,27 @@ def hostile_lines():
         "length-lies": b"\xf9\xff\xff" + b1[3:],
         "leading-zero-len": b"\xfa\x00" + b1[1:3] + b1[3:],
     }
+    def nest(d):
+        x = b"\x80"
+        for _ in range(d):
+            n = len(x)
+            if n < 56:
+                x = bytes([0xc0 + n]) + x
+            else:
+                ln = n.to_bytes((n.bit_length() + 7) // 8, "big")
+                x = bytes([0xf7 + len(ln)]) + ln + x
+        return x
+
+    def raw_list(items):
+        p = b"".join(items)
+        ln = len(p).to_bytes((len(p).bit_length() + 7) // 8, "big")
+        return (bytes([0xc0 + len(p)]) if len(p) < 56 else bytes([0xf7 + len(ln)]) + ln) + p
+    enc_fields = [R.encode(f) for f in fields]
+    for d in (250, 300, 600, 990, 1100, 5000):
+        # a field that is a list nested d deep (first field: kept; last one: a merge-mining field)
+        variants["deep-first-%d" % d] = raw_list([nest(d)] + enc_fields[1:])
+        variants["deep-mm-%d" % d] = raw_list(enc_fields[:-1] + [nest(d)])
+        variants["deep-whole-%d" % d] = nest(d)
     for target in (65535, 65536, 70000):
         f2 = list(fields)
         f2[12] = b"\x01" * (target - 700)
